@@ -78,15 +78,22 @@ func newWalVocab(p *Prog) *walVocab {
 			return ok && c.Elem().String() == elem
 		}
 	}
-	v.closed = need("WAL.closed", fieldWhere(v.walT, "closed", func(f *types.Var) bool { return typeIs(f.Type(), "uint32") }))
-	v.stateCell = need("WAL.s", fieldWhere(v.walT, "s", func(f *types.Var) bool { return typeIs(f.Type(), "sync/atomic.Value") }))
+	isAtomicCell := func(t types.Type) bool {
+		return typeIs(t, "sync/atomic.Value") || strings.HasPrefix(t.String(), "sync/atomic.Pointer[")
+	}
+	v.closed = need("WAL.closed", fieldWhere(v.walT, "closed", func(f *types.Var) bool {
+		return typeIs(f.Type(), "uint32") || typeIs(f.Type(), "sync/atomic.Uint32")
+	}))
+	v.stateCell = need("WAL.s", fieldWhere(v.walT, "s", func(f *types.Var) bool { return isAtomicCell(f.Type()) }))
 	v.writeMu = need("WAL.writeMu", fieldWhere(v.walT, "writeMu", func(f *types.Var) bool { return typeIs(f.Type(), "sync.Mutex") }))
 	v.trigger = need("WAL.triggerRotate", fieldWhere(v.walT, "triggerRotate", isChanOf("uint64")))
 	v.await = need("WAL.awaitRotate", fieldWhere(v.walT, "awaitRotate", isChanOf("struct{}")))
 	v.metaDB = need("WAL.metaDB", fieldWhere(v.walT, "metaDB", func(f *types.Var) bool { return typeIs(f.Type(), ModPath+"/types.MetaStore") }))
 	v.sf = need("WAL.sf", fieldWhere(v.walT, "sf", func(f *types.Var) bool { return typeIs(f.Type(), ModPath+"/types.SegmentFiler") }))
-	v.refCount = need("state.refCount", fieldWhere(v.stateT, "refCount", func(f *types.Var) bool { return typeIs(f.Type(), "int32") }))
-	v.finalizer = need("state.finalizer", fieldWhere(v.stateT, "finalizer", func(f *types.Var) bool { return typeIs(f.Type(), "sync/atomic.Value") }))
+	v.refCount = need("state.refCount", fieldWhere(v.stateT, "refCount", func(f *types.Var) bool {
+		return typeIs(f.Type(), "int32") || typeIs(f.Type(), "sync/atomic.Int32")
+	}))
+	v.finalizer = need("state.finalizer", fieldWhere(v.stateT, "finalizer", func(f *types.Var) bool { return isAtomicCell(f.Type()) }))
 	v.tail = need("state.tail", fieldWhere(v.stateT, "tail", func(f *types.Var) bool { return typeIs(f.Type(), ModPath+"/types.SegmentWriter") }))
 	v.segments = need("state.segments", fieldWhere(v.stateT, "segments", func(f *types.Var) bool { return strings.Contains(f.Type().String(), "immutable.SortedMap") }))
 	// the ID counter is the uint64 field of the snapshot that Persistent() copies into PersistentState.NextSegmentID;
